@@ -4,7 +4,7 @@ from __future__ import annotations
 import ast
 
 from ..core import Result, finding, norm_construct, register
-from ..model import AnalysisError, Repo
+from ..model import AnalysisError, FuncInfo, Repo
 
 ALLOWED_MODULES = {"__future__", "abc", "copy", "dataclasses", "datetime", "enum", "inspect", "math", "typing"}
 # standard-library modules that offer no way to observe the process zone (reviewed once; listed so that an ordinary refactor that
@@ -116,7 +116,7 @@ def run(repo, tier) -> Result:
     # the two bucket-edge helpers must exist (anchors) and use one epoch expression
     tf = repo.module("hexital.utils.timeframe")
     for fn in ("round_down_timestamp", "on_timeframe", "clean_timestamp", "timeframe_to_timedelta"):
-        if fn not in tf.functions:
+        if fn not in tf.functions and not isinstance(repo.resolve(tf, fn), FuncInfo):
             res.errors.append(f"anchor vanished: hexital.utils.timeframe.{fn}")
     res.universe = {"modules": mods, "call_nodes_scanned": n_calls, "positive_example_sites": len(pos)}
     res.rule("R-TZ", floor=40, what="modules scanned")
